@@ -709,6 +709,27 @@ example : ∃ tree, dispatch info (some (true, true)) .add (.var 0) (.npScalar 2
   exact ⟨tree, h1, by rw [h2]; decide +kernel⟩
 
 
+/-- unary minus on signed integer Vars: numpy's value for every operand value (wrap-around at INT_MIN) -/
+theorem neg_matches (s : Bool × Bool) (d : Nat) (hd : d ∈ [0, 1, 2, 3]) (x : Int) :
+    dispatch info (some s) .neg (.var d) .other = .ok (.un .Neg (.arg 0), d) ∧
+      eval info (.var d) .other x 0 (.un .Neg (.arg 0)) = some (d, npInt info .neg d x 0) := by
+  have hs : s ∈ [(true, true), (true, false), (false, true), (false, false)] := by
+    obtain ⟨a, b⟩ := s; cases a <;> cases b <;> simp
+  have h : ∀ s ∈ [(true, true), (true, false), (false, true), (false, false)], ∀ d ∈ [0, 1, 2, 3],
+      (match dispatch info (some s) .neg (.var d) .other with
+       | .ok (tree, r) => tree == Tree.un .Neg (.arg 0) && r == d
+       | .error _ => false) = true := by decide +kernel
+  have h' := h s hs d hd
+  refine ⟨?_, rfl⟩
+  cases hdisp : dispatch info (some s) .neg (.var d) .other with
+  | error e => simp [hdisp] at h'
+  | ok p =>
+    obtain ⟨tree, r⟩ := p
+    simp only [hdisp, Bool.and_eq_true, beq_iff_eq] at h'
+    obtain ⟨rfl, rfl⟩ := h'
+    rfl
+
+
 /-! ## Expressions with Python int literals on either side -/
 
 /-- Expressions over integer Vars **and Python int literals** on either side of an operator. -/
@@ -717,12 +738,14 @@ inductive ExprS
   | bin (op : Op) (l r : ExprS)
   | binR (op : Op) (l : ExprS) (v : Int)
   | binL (op : Op) (v : Int) (r : ExprS)
+  | neg (e : ExprS)            -- round 10: unary minus inside expressions
 
 def ExprS.intOnly : ExprS → Bool
   | .var _ => true
   | .bin op l r => intOps.contains op && l.intOnly && r.intOnly
   | .binR op l _ => intOps.contains op && l.intOnly
   | .binL op _ r => intOps.contains op && r.intOnly
+  | .neg e => e.intOnly
 
 /-- numpy (version 2 rules): a Python int next to an integer array takes the array's element type and must be
     representable in it (otherwise OverflowError: `none`). -/
@@ -752,6 +775,12 @@ def npExprS (env : Nat → Nat × Int) : ExprS → Option (Nat × Int)
           else if op == .floordiv && (y == 0 || (v == intMin dr && y == -1)) then none
           else some (dr, npInt info op dr v y)
       | none => none
+  | .neg e =>
+      -- numpy negates with wrap-around (`-INT_MIN = INT_MIN`); unsigned element types are the listed finding
+      -- `neg:unsigned:refused` (`neg_unsigned_counterexample`) and stay outside the claim
+      match npExprS env e with
+      | some (d, x) => if [0, 1, 2, 3].contains d then some (d, npInt info .neg d x 0) else none
+      | none => none
 
 /-- spox, promotion and constant promotion on: each application dispatched on the operand kinds alone. -/
 def spoxExprS (env : Nat → Nat × Int) : ExprS → Option (Nat × Int)
@@ -775,6 +804,13 @@ def spoxExprS (env : Nat → Nat × Int) : ExprS → Option (Nat × Int)
       | some (dr, y) =>
           (match dispatch info (some (true, true)) op (.pyInt v) (.var dr) with
            | .ok (tree, _) => eval info (.pyInt v) (.var dr) v y tree
+           | .error _ => none)
+      | none => none
+  | .neg e =>
+      match spoxExprS env e with
+      | some (d, x) =>
+          (match dispatch info (some (true, true)) .neg (.var d) .other with
+           | .ok (tree, _) => eval info (.var d) .other x 0 tree
            | .error _ => none)
       | none => none
 
@@ -884,6 +920,25 @@ theorem expr_scalars_match (env : Nat → Nat × Int)
           obtain ⟨tree, hd, he⟩ := arith_scalar_left true (by simp) op hop dr hdr c y hc hyr hdiv
           exact ⟨hdr, npInt_inRange op hop dr hdr c y, by simp only [spoxExprS, hsr, hd, he]⟩
       · simp [hc] at h
+  | .neg e, hio, t, v, h => by
+    simp only [ExprS.intOnly] at hio
+    simp only [npExprS] at h
+    cases hne : npExprS env e with
+    | none => simp [hne] at h
+    | some pe =>
+      obtain ⟨d, x⟩ := pe
+      obtain ⟨hd, _, hse⟩ := expr_scalars_match env henv e hio d x hne
+      simp only [hne] at h
+      by_cases hsg : [0, 1, 2, 3].contains d = true
+      · simp only [hsg, if_true, Option.some.injEq, Prod.mk.injEq] at h
+        obtain ⟨rfl, rfl⟩ := h
+        have hsg' : d ∈ [0, 1, 2, 3] := by simpa using hsg
+        obtain ⟨hdisp, hev⟩ := neg_matches (true, true) d hsg' x
+        refine ⟨hd, ?_, by simp only [spoxExprS, hse, hdisp, hev]⟩
+        exact wrap_inRange info d (ints_bits d hd) _
+      · have hsg' : [0, 1, 2, 3].contains d = false := by simpa using hsg
+        simp only [hsg', Bool.false_eq_true, if_false] at h
+        cases h
 
 -- non-vacuity: (x0 // 2 - 3) * x1 with x0 : int8 = -7, x1 : int32 = 5, and 100 - x0
 example : npExprS (fun i => if i = 0 then (0, -7) else (2, 5))
@@ -891,6 +946,9 @@ example : npExprS (fun i => if i = 0 then (0, -7) else (2, 5))
 example : npExprS (fun _ => (0, -7)) (.binL .sub 100 (.var 0)) = some (0, 107) := by decide +kernel
 -- a literal that does not fit the element type it meets: numpy raises OverflowError
 example : npExprS (fun _ => (0, -7)) (.binR .add (.var 0) 1000) = none := by decide +kernel
+-- round 10: unary minus inside an expression: -(x0 // 2) * 3 with x0 : int8 = -7 is 12; -(-128) wraps to -128
+example : npExprS (fun _ => (0, -7)) (.binR .mul (.neg (.binR .floordiv (.var 0) 2)) 3) = some (0, 12) ∧
+    spoxExprS (fun _ => (0, -128)) (.neg (.var 0)) = some (0, -128) := by decide +kernel
 
 
 /-! ## Scoping: after any blocks the previous settings are in force again -/
@@ -918,26 +976,6 @@ theorem outside_after_blocks (np : NpInfo) (xs : List Scoped) (op : Op) (a b : O
 theorem enclosing_after_inner (cur : Option (Bool × Bool)) (s : Bool × Bool) (xs : List Scoped) :
     (Scoped.probes cur (.block s (xs ++ [.probe]))).getLast? = some (some s) := by
   simp only [Scoped.probes]; rw [scoped_restored]; simp
-
-/-- unary minus on signed integer Vars: numpy's value for every operand value (wrap-around at INT_MIN) -/
-theorem neg_matches (s : Bool × Bool) (d : Nat) (hd : d ∈ [0, 1, 2, 3]) (x : Int) :
-    dispatch info (some s) .neg (.var d) .other = .ok (.un .Neg (.arg 0), d) ∧
-      eval info (.var d) .other x 0 (.un .Neg (.arg 0)) = some (d, npInt info .neg d x 0) := by
-  have hs : s ∈ [(true, true), (true, false), (false, true), (false, false)] := by
-    obtain ⟨a, b⟩ := s; cases a <;> cases b <;> simp
-  have h : ∀ s ∈ [(true, true), (true, false), (false, true), (false, false)], ∀ d ∈ [0, 1, 2, 3],
-      (match dispatch info (some s) .neg (.var d) .other with
-       | .ok (tree, r) => tree == Tree.un .Neg (.arg 0) && r == d
-       | .error _ => false) = true := by decide +kernel
-  have h' := h s hs d hd
-  refine ⟨?_, rfl⟩
-  cases hdisp : dispatch info (some s) .neg (.var d) .other with
-  | error e => simp [hdisp] at h'
-  | ok p =>
-    obtain ⟨tree, r⟩ := p
-    simp only [hdisp, Bool.and_eq_true, beq_iff_eq] at h'
-    obtain ⟨rfl, rfl⟩ := h'
-    rfl
 
 /-! ## How a block is opened: an explicit `False` is not "unset"; nothing is inherited from the enclosing block -/
 
